@@ -75,4 +75,7 @@ int cmd_c03consts (void) ;
 /* iolog.c (C15) */
 void op_iolog (char **tok, int ntok) ;
 
+/* ledger.c (C16) */
+void op_ledger (char **tok, int ntok) ;
+
 #endif
